@@ -357,7 +357,31 @@ pub fn gen_wallet(property: &str, seed: u64, thorough: bool) -> Scenario {
     let cmd = match (property, wrng.below(10)) {
       ("C24", _) => gen_accept(&mut wrng),
       ("C21", _) => WalletCmd::Batch {
-        mode: wrng.below(3) as u8,
+        etching: if wrng.chance(1, 3) {
+          let premine = *wrng.pick(&[0u64, 1, 1000, 1_000_000, 21_000_000]);
+          Some(BatchEtching {
+            name: wrng.below(1000) as u32,
+            spacers: wrng.below(8) as u32,
+            divisibility: *wrng.pick(&[0u8, 0, 2, 8]),
+            premine,
+            terms: if premine == 0 || wrng.chance(1, 2) {
+              Some((1 + wrng.below(1000), 1 + wrng.below(100)))
+            } else {
+              None
+            },
+            turbo: wrng.chance(1, 4),
+            mine_every: 1 + wrng.below(3) as u32,
+          })
+        } else {
+          None
+        },
+        target: match wrng.below(6) {
+          0 => Some(BatchTarget::Sat(wrng.below(16) as u32)),
+          1 => Some(BatchTarget::Satpoint(wrng.below(16) as u32)),
+          2 => Some(BatchTarget::Reinscribe(wrng.below(16) as u32)),
+          _ => None,
+        },
+        mode: wrng.below(4) as u8,
         count: 1 + wrng.below(4) as u8,
         parents: (0..wrng.below(3)).map(|_| wrng.below(16) as u32).collect(),
         postage: if wrng.chance(1, 3) { Some(546 + wrng.below(30_000)) } else { None },
@@ -516,8 +540,22 @@ enum Expect {
   Batch {
     parents: Vec<ord::InscriptionId>,
     count: usize,
+    etching: Option<EtchWant>,
+    /// every inscription of the batch must end up on this sat
+    target_sat: Option<u64>,
+    /// `reinscribe`: the inscribed output the batch is about
+    subject: Option<OutPoint>,
   },
   Accept(Box<Offer>),
+}
+
+#[derive(Debug, Clone)]
+struct EtchWant {
+  rune: SpacedRune,
+  divisibility: u8,
+  premine: u128,
+  terms: Option<(u128, u128)>,
+  mine_every: u32,
 }
 
 /// What was presented to `wallet offer accept`.
@@ -867,6 +905,8 @@ fn resolve(cmd: &WalletCmd, ex: &Exec, m: &Model, wv: &WalletView) -> Option<Res
       })
     }
     WalletCmd::Batch {
+      etching,
+      target,
       mode,
       count,
       parents,
@@ -900,12 +940,63 @@ fn resolve(cmd: &WalletCmd, ex: &Exec, m: &Model, wv: &WalletView) -> Option<Res
           }
         }
       }
-      let mode_name = match mode % 3 {
+      let mode_name = match mode % 4 {
         0 => "separate-outputs",
         1 => "shared-output",
-        _ => "same-sat",
+        2 => "same-sat",
+        _ => "satpoints",
       };
+      // confirmed wallet outputs that hold nothing, and inscribed ones
+      let view = ex.sim.snapshot(|s| s.world.spendable_view());
+      let mut cardinals: Vec<OutPoint> = Vec::new();
+      let mut inscribed: Vec<(OutPoint, u64, u64)> = Vec::new();
+      for (o, (txout, height)) in &view {
+        if height.is_none() || !wv.owned.contains(&txout.script_pubkey) {
+          continue;
+        }
+        let Some(u) = m.utxos.get(o) else {
+          continue;
+        };
+        if !holdings(m, o).0.is_empty() {
+          continue;
+        }
+        let ids = inscriptions_on(m, o);
+        if ids.is_empty() {
+          cardinals.push(*o);
+        } else if let Some(sat) = m.inscr.list.iter().find(|i| i.id == ids[0]).and_then(|i| i.sat)
+          && let Some(offset) = crate::model::offset_of(&u.ranges, sat)
+        {
+          inscribed.push((*o, offset, sat));
+        }
+      }
       let mut yaml = format!("mode: {mode_name}\n");
+      let mut target_sat = None;
+      let mut subject = None;
+      if mode % 4 == 2
+        && let Some(t) = target
+      {
+        match t {
+          BatchTarget::Sat(k) if !cardinals.is_empty() => {
+            let o = cardinals[*k as usize % cardinals.len()];
+            let sat = crate::model::sat_at(&m.utxos[&o].ranges, 0)?;
+            yaml += &format!("sat: {sat}\n");
+            target_sat = Some(sat);
+          }
+          BatchTarget::Satpoint(k) if !cardinals.is_empty() => {
+            let o = cardinals[*k as usize % cardinals.len()];
+            yaml += &format!("satpoint: {o}:0\n");
+            target_sat = crate::model::sat_at(&m.utxos[&o].ranges, 0);
+          }
+          BatchTarget::Reinscribe(k) if !inscribed.is_empty() => {
+            let (o, offset, sat) = inscribed[*k as usize % inscribed.len()];
+            yaml += &format!("reinscribe: true\nsatpoint: {o}:{offset}\n");
+            target_sat = Some(sat);
+            subject = Some(o);
+          }
+          _ => {}
+        }
+      }
+      let postage = if mode % 4 == 3 { &None } else { postage };
       if !parent_ids.is_empty() {
         yaml += "parents:\n";
         for p in &parent_ids {
@@ -917,7 +1008,13 @@ fn resolve(cmd: &WalletCmd, ex: &Exec, m: &Model, wv: &WalletView) -> Option<Res
       }
       yaml += "inscriptions:\n";
       let known = m.inscr.known_ids();
-      let n = (*count).clamp(1, 6) as usize;
+      let mut n = (*count).clamp(1, 6) as usize;
+      if mode % 4 == 3 {
+        n = n.min(cardinals.len());
+        if n == 0 {
+          return None;
+        }
+      }
       for i in 0..n {
         let path = dir.join(format!("file{i}.txt"));
         std::fs::write(&path, format!("inscription {i} of a batch, seed {}", ex.seed)).ok()?;
@@ -934,6 +1031,33 @@ fn resolve(cmd: &WalletCmd, ex: &Exec, m: &Model, wv: &WalletView) -> Option<Res
         if *metadata {
           yaml += &format!("  metadata:\n    title: item {i}\n");
         }
+        if mode % 4 == 3 {
+          yaml += &format!("  satpoint: {}:0\n", cardinals[(i + *count as usize) % cardinals.len()]);
+        }
+      }
+      let mut want = None;
+      if let Some(e) = etching {
+        let spaced = SpacedRune {
+          rune: fresh_rune(100 + e.name),
+          spacers: e.spacers & ((1 << (fresh_rune(100 + e.name).to_string().len() - 1)) - 1),
+        };
+        let premine = u128::from(e.premine);
+        let terms = e.terms.map(|(a, c)| (u128::from(a), u128::from(c)));
+        let supply = premine + terms.map(|(a, c)| a * c).unwrap_or(0);
+        yaml += "etching:\n";
+        yaml += &format!("  rune: {spaced}\n  divisibility: {}\n  symbol: '$'\n", e.divisibility);
+        yaml += &format!("  premine: {}\n  supply: {}\n", decimal(premine, e.divisibility), decimal(supply, e.divisibility));
+        yaml += &format!("  turbo: {}\n", e.turbo);
+        if let Some((a, c)) = terms {
+          yaml += &format!("  terms:\n    amount: {}\n    cap: {c}\n", decimal(a, e.divisibility));
+        }
+        want = Some(EtchWant {
+          rune: spaced,
+          divisibility: e.divisibility,
+          premine,
+          terms,
+          mine_every: e.mine_every,
+        });
       }
       let path = dir.join("batch.yaml");
       std::fs::write(&path, yaml).ok()?;
@@ -948,8 +1072,14 @@ fn resolve(cmd: &WalletCmd, ex: &Exec, m: &Model, wv: &WalletView) -> Option<Res
         expect: Expect::Batch {
           parents: parent_ids.clone(),
           count: n,
+          etching: want.clone(),
+          target_sat,
+          subject,
         },
-        describe: format!("batch {mode_name} x{n} parents {parent_ids:?}"),
+        describe: format!(
+          "batch {mode_name} x{n} parents {parent_ids:?} target sat {target_sat:?} etching {:?}",
+          want.as_ref().map(|w| w.rune.to_string())
+        ),
       })
     }
     WalletCmd::Split { outputs, fee_rate } => {
@@ -1014,6 +1144,7 @@ fn settle_batch(
   p: &Pending,
   parents: &[ord::InscriptionId],
   count: usize,
+  subject: Option<OutPoint>,
   out: &mut Vec<Violation>,
 ) {
   let Ok(j) = serde_json::from_str::<serde_json::Value>(&p.stdout) else {
@@ -1099,6 +1230,10 @@ fn settle_batch(
     && let Some(tx) = p.txs.iter().find(|t| t.compute_txid() == commit)
   {
     for i in &tx.input {
+      // a reinscription is about the inscribed output named by `satpoint`
+      if Some(i.previous_output) == subject {
+        continue;
+      }
       let (runes, inscribed) = holdings(&p.before, &i.previous_output);
       if inscribed > 0 || !runes.is_empty() {
         out.push(v(
@@ -1242,6 +1377,110 @@ fn audit_offer(
   }
 }
 
+/// C21: the etching of a batch created the named rune with its premine at
+/// the reported output; `sat` / `satpoint` batches inscribed that sat.
+fn settle_batch_extras(
+  ex: &Exec,
+  after: &Model,
+  p: &Pending,
+  etching: Option<&EtchWant>,
+  target_sat: Option<u64>,
+  out: &mut Vec<Violation>,
+  facts: &mut BTreeMap<String, u64>,
+) {
+  let Ok(j) = serde_json::from_str::<serde_json::Value>(&p.stdout) else {
+    return;
+  };
+  if let Some(sat) = target_sat {
+    *facts.entry("batch.targeted_sat_settled".into()).or_default() += 1;
+    for r in j["inscriptions"].as_array().cloned().unwrap_or_default() {
+      let Some(id) = r["id"].as_str().and_then(|s| s.parse::<ord::InscriptionId>().ok()) else {
+        continue;
+      };
+      let got = after.inscr.list.iter().find(|i| i.id == id).and_then(|i| i.sat);
+      if got != Some(sat) {
+        out.push(v(
+          "C21",
+          "wrong_sat",
+          format!("{}: {id} was to be inscribed on sat {sat}, it is on {got:?}", p.describe),
+        ));
+      }
+    }
+  }
+  let Some(want) = etching else {
+    return;
+  };
+  *facts.entry("batch.etchings_settled".into()).or_default() += 1;
+  let reveal: Option<bitcoin::Txid> = j["reveal"].as_str().and_then(|s| s.parse().ok());
+  let reported = &j["rune"];
+  if reported["rune"].as_str() != Some(want.rune.to_string().as_str()) {
+    out.push(v(
+      "C21",
+      "rune_not_reported",
+      format!("{}: output reports rune {:?}", p.describe, reported["rune"]),
+    ));
+  }
+  let index = ex.index();
+  let entry = index
+    .runes()
+    .unwrap_or_default()
+    .into_iter()
+    .find(|(_, e)| e.spaced_rune == want.rune);
+  let Some((id, entry)) = entry else {
+    out.push(v(
+      "C21",
+      "rune_not_etched",
+      format!("{}: after mining commit and reveal the index has no rune {}", p.describe, want.rune),
+    ));
+    return;
+  };
+  if Some(entry.etching) != reveal
+    || entry.premine != want.premine
+    || entry.divisibility != want.divisibility
+    || entry.terms.map(|t| (t.amount.unwrap_or(0), t.cap.unwrap_or(0))) != want.terms
+  {
+    out.push(v(
+      "C21",
+      "rune_entry_differs",
+      format!(
+        "{}: rune {} etched by {} with premine {} divisibility {} terms {:?}; requested premine {} divisibility {} terms {:?} in reveal {reveal:?}",
+        p.describe, want.rune, entry.etching, entry.premine, entry.divisibility, entry.terms, want.premine, want.divisibility, want.terms
+      ),
+    ));
+  }
+  let location: Option<OutPoint> = reported["location"].as_str().and_then(|s| s.parse().ok());
+  let balances: BTreeMap<OutPoint, BTreeMap<RuneId, u128>> = index
+    .get_rune_balances()
+    .unwrap_or_default()
+    .into_iter()
+    .map(|(o, l)| (o, l.into_iter().collect()))
+    .collect();
+  if want.premine > 0 {
+    let at = location.and_then(|o| balances.get(&o)).and_then(|b| b.get(&id)).copied().unwrap_or(0);
+    if at != want.premine {
+      let holders: Vec<String> = balances
+        .iter()
+        .filter(|(_, b)| b.contains_key(&id))
+        .map(|(o, b)| format!("{o}={}", b[&id]))
+        .collect();
+      out.push(v(
+        "C21",
+        "premine_not_at_reported_output",
+        format!(
+          "{}: premine {} of {} reported at {location:?}, which holds {at}; holders: {holders:?}",
+          p.describe, want.premine, want.rune
+        ),
+      ));
+    }
+  } else if location.is_some() {
+    out.push(v(
+      "C21",
+      "premine_location_without_premine",
+      format!("{}: no premine, but a location {location:?} is reported", p.describe),
+    ));
+  }
+}
+
 /// Runes and inscriptions held by an output, by the reference model.
 fn holdings(m: &Model, o: &OutPoint) -> (BTreeMap<RuneId, u128>, usize) {
   let runes = m.runes.balances.get(o).cloned().unwrap_or_default();
@@ -1330,10 +1569,17 @@ pub fn run_wallet(property: &str, sc: &Scenario) -> RunReport {
           .collect();
         for p in pending.drain(..) {
           if property == "C21"
-            && let Expect::Batch { parents, count } = &p.expect
+            && let Expect::Batch {
+              parents,
+              count,
+              etching,
+              target_sat,
+              subject,
+            } = &p.expect
           {
             ctx.report.checks += 1;
-            settle_batch(&ex, &after, &p, parents, *count, &mut out);
+            settle_batch(&ex, &after, &p, parents, *count, *subject, &mut out);
+            settle_batch_extras(&ex, &after, &p, etching.as_ref(), *target_sat, &mut out, &mut ctx.report.facts);
             continue;
           }
           if property != "C22" {
@@ -1476,6 +1722,13 @@ pub fn run_wallet(property: &str, sc: &Scenario) -> RunReport {
           "--name".into(),
           WALLET.into(),
         ]);
+        if let Expect::Batch { etching: Some(want), .. } = &resolved.expect {
+          // the waiting wallet polls the node; simulated time passes with the
+          // polls (a block every `mine_every` polls) instead of real sleeps
+          args.insert(1, "--integration-test".into());
+          let every = want.mine_every;
+          ex.sim.snapshot(|s| s.world.wallet_side.mine_on_poll = Some((every, 12)));
+        }
         args.extend(resolved.argv.clone());
         let n_before = ex.sim.snapshot(|s| s.world.wallet_side.broadcasts.len());
         let (n_signs, n_attempts) = ex.sim.snapshot(|s| {
@@ -1487,6 +1740,7 @@ pub fn run_wallet(property: &str, sc: &Scenario) -> RunReport {
         });
         commands += 1;
         let result = ex.cli(&args);
+        ex.sim.snapshot(|s| s.world.wallet_side.mine_on_poll = None);
         let panics = crate::exec::take_panics();
         let txs: Vec<Transaction> = ex.sim.snapshot(|s| s.world.wallet_side.broadcasts[n_before..].to_vec());
         if !panics.is_empty() {
